@@ -459,6 +459,7 @@ func c11r6(r *R) {
 			}
 		}
 	}
+	handoffUnbuffered(r, "C11.R6")
 	r.Ob("C11.R6", "instances").Check(n >= 15, "expected >= 15 blocking channel operations on per-connection goroutines, found %d", n)
 }
 
